@@ -273,6 +273,76 @@ def check_forward_impls(ck, f, unit, label):
     return n
 
 
+def check_cast_views(ck, m, label):
+    """A cast (`as_ref!`, `as_mut!`, `cast!(..).upcast()`) reinterprets a group as one of its With-variants in place: the variant must name the
+    same fields in the same positions, otherwise a call through the view reaches another trait's vtable."""
+    n = 0
+    for grp in m.groups:
+        base = [nm for nm, _ in model.adt_fields(grp.base)]
+        for wn, w in sorted(grp.withs.items()):
+            n += 1
+            got = [nm for nm, _ in model.adt_fields(w)]
+            ck.ob("R6-cast-view-keeps-slot-positions", "%s/%s/%s" % (label, grp.base["path"], wn), got == base,
+                  "%s declares its fields as %s but the group %s has %s: a reinterpreting cast would dispatch through the wrong slot" % (wn, got, grp.name, base),
+                  sample={"group": grp.name, "view": wn})
+    return n
+
+
+def _erase_lt(ty):
+    import re
+    ty = re.sub(r"for<[^>]*>\s*", "", ty or "")
+    ty = re.sub(r"'\w+\s*,\s*", "", ty)
+    ty = re.sub(r"'\w+\s*", "", ty)
+    return re.sub(r"\s+", " ", ty).strip()
+
+
+def check_lifetimed_getters(ck, m, label):
+    """`<slot>_lifetimed()` hands out the stored function under a transmuted type: apart from lifetimes that type must be the slot's own
+    type (a different return representation behind the transmute would be called with the wrong ABI)."""
+    n = 0
+    for g in m.gen_traits:
+        flds = {nm: f for nm, f in g.fn_fields()}
+        for f in m.facts.fns(m.unit):
+            if f.get("impl_self_adt") == g.vtbl_path and f["name"].endswith("_lifetimed") and f["name"][:-len("_lifetimed")] in flds:
+                slot = f["name"][:-len("_lifetimed")]
+                n += 1
+                want, got = _erase_lt(flds[slot]["ty"]), _erase_lt(f["output"])
+                ck.ob("R7-lifetimed-getter-keeps-slot-type", "%s/%s.%s" % (label, g.vtbl_path, slot), want == got,
+                      "%s::%s_lifetimed returns `%s` but the slot is `%s`" % (g.vtbl_path, slot, f["output"][:160], flds[slot]["ty"][:160]), sample={"slot": slot})
+    return n
+
+
+def check_rettmp_slots(ck, m, f, unit, label):
+    """Every method that lends a wrapped value stores it in a temporary-return slot of its own: two accessors sharing one slot would make
+    the second call overwrite the object the first result points to."""
+    n = 0
+    for g in m.gen_traits:
+        used = {}
+        for name, w in g.wrappers.items():
+            # the slot is handed to the wrapping closure as a captured `&mut ret_tmp.<slot>`
+            body = mir.Body(w)
+            for i in sorted(body.live_blocks()):
+                for st_ in body.blocks[i]["s"]:
+                    if st_["k"] == "assign" and st_["r"]["k"] == "agg" and st_["r"].get("ak") == "closure":
+                        for op in st_["r"]["ops"]:
+                            o = body.origin_operand(op)
+                            # `&mut RetTmp::<slot>(ret_tmp)` (generated accessor) or `&mut ret_tmp.<slot>`; ret_tmp is component 1 of cobj_*()
+                            from_tmp = mir.contains(o, lambda x: x[0] == "field" and x[2] == "1" and mir.strip(x[1])[0] == "call" and "::cobj_" in mir.strip(x[1])[1])
+                            if not from_tmp:
+                                continue
+                            acc = [x for x in mir.walk(o) if x[0] == "call" and "RetTmp" in x[1]]
+                            flds = [x for x in mir.walk(o) if x[0] == "field" and isinstance(x[2], str) and not x[2].isdigit()]
+                            if acc:
+                                used.setdefault(acc[0][1].split("::")[-1], set()).add(name)
+                            elif flds:
+                                used.setdefault(flds[0][2], set()).add(name)
+        for slot, names in sorted(used.items()):
+            n += 1
+            ck.ob("R8-temporary-slot-per-method", "%s/%s.%s" % (label, g.vtbl_path, slot), len(names) == 1,
+                  "methods %s of %s all store their lent result in the one temporary-return slot `%s`" % (sorted(names), g.trait_path, slot), sample={"slot": slot, "methods": sorted(names)})
+    return n
+
+
 def custom_table_for(label):
     return CUSTOM_TABLES.get(label, {})
 
@@ -289,6 +359,9 @@ def run(tier):
     check_model(ck, m, "corpus", {}, stats)
     na = check_accessors(ck, cf, None, "corpus")
     nf = check_forward_impls(ck, cf, None, "corpus")
+    ck.floor("cast views in corpus", check_cast_views(ck, m, "corpus"), 8)
+    ck.floor("lifetimed getters in corpus", check_lifetimed_getters(ck, m, "corpus"), 1)
+    ck.floor("temporary-return slots in corpus", check_rettmp_slots(ck, m, cf, None, "corpus"), 5)
     ck.floor("forward impls in corpus", nf, 3)
     n_corpus = stats["methods"]
     ck.floor("generated methods in corpus", n_corpus, 240 if tier == "quick" else 1380)
@@ -300,6 +373,9 @@ def run(tier):
     check_model(ck, m2, "cglue-tests", CUSTOM_IMPL, stats)
     check_accessors(ck, ct, "cglue-test", "cglue-tests")
     check_forward_impls(ck, ct, "cglue-test", "cglue-tests")
+    check_cast_views(ck, m2, "cglue-tests")
+    check_lifetimed_getters(ck, m2, "cglue-tests")
+    check_rettmp_slots(ck, m2, ct, "cglue-test", "cglue-tests")
     cl = facts.cfg_cglue(features="task,futures")
     ck.unit("cglue lib (task,futures): cglue::ext incl. Future/Stream/Sink")
     check_model(ck, model.Model(cl, "cglue-lib"), "cglue-ext", CUSTOM_IMPL, stats)
